@@ -627,10 +627,28 @@ def structure_signature(body):
         p = s["place"]
         if p["p"] and p["p"][0]["k"] == "deref" and any(True for d in body.defs.get(p["l"], []) if d[2] == "call" and d[3]["callee"].get("def", "").endswith("index_mut")):
             stores += 1
-    return {"for_loops": len(loops_in(body)), "while_loops": len(natural_loops(body)) - len(loops_in(body)), "element_stores": stores, "calls": dict(sorted(calls.items()))}
+    fields = collections.Counter()
+    def count_place(pl):
+        for e in pl["p"]:
+            if e["k"] == "field" and e.get("name") and e.get("adt"):
+                fields[e["name"]] += 1
+    for bi, si, s in body.assigns():
+        count_place(s["place"])
+        rv = s["rv"]
+        if rv["k"] in ("ref", "rawptr", "discr", "copy_for_deref"):
+            count_place(rv["place"])
+        for o in rv_operands(rv):
+            if o["k"] in ("copy", "move"):
+                count_place(o["place"])
+    for bi, t in body.calls():
+        for a in t["args"]:
+            if a["k"] in ("copy", "move"):
+                count_place(a["place"])
+    return {"for_loops": len(loops_in(body)), "while_loops": len(natural_loops(body)) - len(loops_in(body)), "element_stores": stores,
+            "calls": dict(sorted(calls.items())), "fields": dict(sorted(fields.items()))}
 
 
-def siblings_agree(ctx, rule, name_a, name_b, what, ignore=(), ignore_stores=False):
+def siblings_agree(ctx, rule, name_a, name_b, what, ignore=(), ignore_stores=False, compare_fields=False):
     a, b = ctx.body(name_a), ctx.body(name_b)
     ctx.scan([a, b])
     sa, sb = structure_signature(a), structure_signature(b)
@@ -643,6 +661,10 @@ def siblings_agree(ctx, rule, name_a, name_b, what, ignore=(), ignore_stores=Fal
             continue
         if sa["calls"].get(c, 0) != sb["calls"].get(c, 0):
             diff.append("%s: %d vs %d" % (c, sa["calls"].get(c, 0), sb["calls"].get(c, 0)))
+    if compare_fields:
+        for c in sorted(set(sa["fields"]) | set(sb["fields"])):
+            if sa["fields"].get(c, 0) != sb["fields"].get(c, 0):
+                diff.append("field .%s read/written %d vs %d times" % (c, sa["fields"].get(c, 0), sb["fields"].get(c, 0)))
     ctx.ob(rule, name_a + " ~ " + name_b.split("::")[-1], what, "ok" if not diff else "violation",
            "the two sibling routines have the same loop / store / call structure (%d loops, %d element stores, %d call kinds)" % (sa["for_loops"] + sa["while_loops"], sa["element_stores"], len(sa["calls"])) if not diff else
            "sibling implementations of the same step (transposes of each other) disagree in structure: %s - one of them was changed alone" % "; ".join(diff[:5]))
